@@ -268,6 +268,16 @@ def install():
                 REC.prims.append(["removeInst", u])
         return r
 
+    # exceptions the interpreter catches itself (try/except in _advance_head_front and around the match evaluation)
+    orig_warning = statemachine.log.warning
+
+    def warning(msg, *args, **kw):
+        exc = [a for a in args if isinstance(a, BaseException)]
+        if exc:
+            REC.notes.append([type(exc[-1]).__name__, str(exc[-1])[:80]])
+        return orig_warning(msg, *args, **kw)
+
+    statemachine.log.warning = warning
     statemachine._flow_head_changed = flow_head_changed
     statemachine._remove_head_from_event_matching_structures = remove_head
     statemachine.add_new_flow_instance = add_new_flow_instance
